@@ -112,7 +112,8 @@ def check_cli(case):
 
 
 def _cli_strategy():
-    return st.tuples(gp.programs(), st.booleans()).map(lambda t: {"prog": t[0], "propagate": t[1]})
+    return st.tuples(st.one_of(gp.programs(), gp.programs(evidence_bias=True)), st.booleans()).map(
+        lambda t: {"prog": t[0], "propagate": t[1]})
 
 
 # ------------------------------------------------------------------------------------------------ exhaustive family
@@ -162,7 +163,7 @@ _check10 = make_check(10)
 SUBCHECKS = [
     SubCheck("default", _check10, strategy=_strategy, budget={"quick": 4000, "thorough": 60000},
              timeout={"quick": 5, "thorough": 20}, render=render),
-    SubCheck("cli", check_cli, strategy=_cli_strategy, budget={"quick": 800, "thorough": 10000},
+    SubCheck("cli", check_cli, strategy=_cli_strategy, budget={"quick": 2400, "thorough": 10000},
              timeout={"quick": 5, "thorough": 20}, render=render),
     SubCheck("small-exhaustive", check_small, enumerate=enumerate_small, exhaustive_tiers=("thorough",), timeout={"quick": 5, "thorough": 20},
              exhaustive="all programs '0.3::a. 0.6::b.' + 1-3 rules (heads p,q; bodies of 1-2 literals over a,b,p,q,\\+a,\\+b) + "
